@@ -18,6 +18,7 @@ package main
 import (
 	"fmt"
 	"math/rand"
+	"os"
 	"time"
 
 	. "verifharness/hlib"
@@ -49,6 +50,7 @@ func quickConfigs() []confSpec {
 		{"json", "bytes", ""},
 		{"wspb", "bytes", ""},
 		{"pb", "plain", ""},
+		{"raw", "plain", ""}, // the only cell in which the plain codec is handed a window of the pooled read buffer
 		{"raw", "plain", "g"},
 		{"raw", "json", "m"},
 		{"raw", "bytes", "gm"},
@@ -107,6 +109,10 @@ func main() {
 	start := time.Now()
 	var tot totals
 	failingConfigs := 0
+	only := os.Getenv("C01_ONLY") // debugging aid: run one part of the harness alone
+	if only != "" && only != "matrix" {
+		specs = nil
+	}
 	for ci, spec := range specs {
 		if failingConfigs >= 2 {
 			// the property already fails on two configurations: the rest of the matrix adds
@@ -148,11 +154,27 @@ func main() {
 	if cfg.Tier == "thorough" {
 		k = 200
 	}
+	if only != "" {
+		k = 0
+	}
 	tot.evals += senderMemoryOracle(cfg, st, k)
+	// values held by running handlers / by callers while later messages are read (retain.go)
+	retainRounds := 1
+	if cfg.Tier == "thorough" {
+		retainRounds = 6
+	}
+	if only != "" && only != "retain" {
+		retainRounds = 0
+	}
+	retainEvals := retainScenario(cfg, st, w, retainRounds)
+	tot.evals += retainEvals
 	// calls in flight across a redial of a client session
 	rounds := 3
 	if cfg.Tier == "thorough" {
 		rounds = 12
+	}
+	if only != "" && only != "redial" {
+		rounds = 0
 	}
 	for r := 0; r < rounds; r++ {
 		tot.evals += redialScenario(st, r, []int{0, 2, 5}[r%3])
@@ -161,12 +183,13 @@ func main() {
 	st.Evaluations = tot.evals
 	st.DistinctNontrivial = tot.distinct
 	st.Extra = map[string]interface{}{
-		"configs":           tot.configs,
-		"stalls":            tot.stalls,
-		"reordered_batches": tot.batches,
-		"epochs":            tot.epochs,
-		"goroutines":        G,
-		"wall_ms":           time.Since(start).Milliseconds(),
+		"configs":            tot.configs,
+		"stalls":             tot.stalls,
+		"reordered_batches":  tot.batches,
+		"epochs":             tot.epochs,
+		"goroutines":         G,
+		"retain_evaluations": retainEvals,
+		"wall_ms":            time.Since(start).Milliseconds(),
 	}
 	st.Write(cfg, w)
 	fmt.Printf("c01: configs=%d epochs=%d cases=%d evals=%d stalls=%d reordered_batches=%d failures=%d wall=%s\n",
